@@ -186,8 +186,12 @@ def run(tier):
                 reqs.append({"op": "priv", "cipher": cipher, "key": key16, "ops": [{"op": "decrypt", "data": [(i * 7) % 256 for i in range(dlen)], "pp": list(range(pplen)),
                                                                                      "engine": [1, 2, 3], "boots": "1", "time": "2"}]})
                 meta.append(("decrypt", -2))
+    if not rs.available():
+        # hooks level 'off': the decoders are still reached through the real sessions below; the direct Rust-level calls are skipped
+        chk.assumptions.append("hooks level 'off': direct decoder calls through the Rust replay binary were skipped for this tree")
+        reqs, meta = [], []
     try:
-        obs = rs.run(reqs, timeout=1800)
+        obs = rs.run(reqs, timeout=1800) if reqs else []
     except TimeoutError:
         chk.violation(dict(kind="hang", target="rust"), "the replay binary did not finish: a decoder does not terminate", dict(kind="hang"))
         obs = [{"r": "died"}] * len(reqs)
